@@ -484,9 +484,21 @@ fn lit_to_count(l: &Lit, ty: RangeTy) -> Result<Num, ErrKind> {
 // ------------------------------------------------------------------------------------------
 // ranges
 
-pub fn spec_matches(spec: &CountSpec, n: Num) -> bool {
+/// a bound of a float range as the value of the range's type (Rust semantics: an integer written for an `f32`
+/// range is converted to `f32` directly, not through `f64`)
+pub fn bound_f64(b: &Num, ty: RangeTy) -> f64 {
+    match (b, ty) {
+        (Num::Int(i), RangeTy::F32) => (*i as f32) as f64,
+        (Num::Int(i), _) => *i as f64,
+        (Num::Float(f), RangeTy::F32) => (*f as f32) as f64,
+        (Num::Float(f), _) => *f,
+    }
+}
+
+pub fn spec_matches(spec: &CountSpec, n: Num, ty: RangeTy) -> bool {
     match (spec, n) {
         (CountSpec::Exact { v: Num::Int(a), .. }, Num::Int(b)) => *a == b,
+        (CountSpec::Exact { v, .. }, Num::Float(n)) if ty.is_float() => bound_f64(v, ty) == n,
         (CountSpec::Exact { v, .. }, n) => v.as_f64() == n.as_f64(),
         (CountSpec::Bounds { start, end }, Num::Int(n)) => {
             let int = |x: &Num| match x {
@@ -523,13 +535,13 @@ pub fn spec_matches(spec: &CountSpec, n: Num) -> bool {
 pub fn select_branch(r: &RRange, n: Num) -> Option<usize> {
     r.branches
         .iter()
-        .position(|(specs, _)| specs.is_empty() || specs.iter().any(|s| spec_matches(s, n)))
+        .position(|(specs, _)| specs.is_empty() || specs.iter().any(|s| spec_matches(s, n, r.ty)))
 }
 
 pub fn select_branch_decl(r: &RangeDecl, n: Num) -> Option<usize> {
     r.branches
         .iter()
-        .position(|b| b.specs.is_empty() || b.specs.iter().any(|s| spec_matches(s, n)))
+        .position(|b| b.specs.is_empty() || b.specs.iter().any(|s| spec_matches(s, n, r.ty)))
 }
 
 // ------------------------------------------------------------------------------------------
@@ -1315,7 +1327,7 @@ pub fn range_probe_counts(specs: &[&CountSpec], ty: RangeTy) -> Vec<Num> {
         let mut base = vec![0.0, 1.0, -1.0, 0.5];
         for s in specs {
             match s {
-                CountSpec::Exact { v, .. } => base.push(v.as_f64()),
+                CountSpec::Exact { v, .. } => base.push(bound_f64(v, ty)),
                 CountSpec::Bounds { start, end } => {
                     if let Some(s) = start {
                         base.push(s.as_f64());
